@@ -18,7 +18,7 @@ EXPLANATION = 'theorems about the model of Asset.dcf and the assembly; correspon
 
 
 def scenarios(seed, tier):
-    n = 300 if tier == 'quick' else 3000
+    n = 600 if tier == 'quick' else 3600
     rnd = random.Random(seed * 7919 + 4)
     for i in range(n):
         s = gen.gen_portfolio(random.Random(rnd.getrandbits(48)), tmax=12 if tier == 'quick' else 20,
